@@ -41,7 +41,7 @@ func init() {
 	}
 	Register(&Check{
 		ID: "C26", World: "C/transmission", Gen: genTransmit, Run: runTransmit, Simplify: simplifyTransmit,
-		OwnProbes: []string{"batch_split_by_body_size", "oversized_event_dropped", "retry_after_429_503", "retry_after_timeout", "no_retry_bad_retry_after", "pending_sent_by_stop", "batch_dispatched_by_size", "short_response"},
+		OwnProbes: []string{"batch_split_by_body_size", "oversized_event_dropped", "retry_after_429_503", "retry_after_timeout", "no_retry_bad_retry_after", "pending_sent_by_stop", "batch_dispatched_by_size", "short_response", "batch_waited_for_its_sender"},
 		Real:      []string{"transmit.DirectTransmission (EnqueueEvent, sendBatch, dispatchStaleBatches, Stop)", "net/http.Client (real, timeout on simulated time)", "zstd + msgpack encoding", "metrics.MultiMetrics"},
 		Stub:      []string{"network and Honeycomb API (SimNet: per-attempt behaviour from the plan)", "clock (SimClock: the dispatch ticker is delivered by the driver)", "config (MockConfig)", "logger (NullLogger)"},
 	})
@@ -95,6 +95,13 @@ func genTransmit(r *Rng, tier string, p *Plan) {
 			pad = int64(PickOf(r, 10, 400_000, 400_000, 999_000, 999_900, 1_000_100, 1_200_000))
 		}
 		p.Add(Op{K: "ev", At: now, I: int64(r.Intn(nd)), N: pad, M: int64(PickOf(r, 0, 1, 7, 1<<31-1))})
+	}
+	if r.Bool(0.25) && now > 0 {
+		// senders held up for a while: batches taken off the pending list wait to
+		// be marshalled while more events are enqueued
+		at := r.I64n(now + 1)
+		p.Add(Op{K: "park_send", At: at})
+		p.Add(Op{K: "release_send", At: at + PickOf(r, bt/2, bt, bt+bt/2, 3*bt)})
 	}
 	if r.Bool(0.6) {
 		p.Add(Op{K: "stop", At: now + PickOf(r, int64(0), 1, bt/4, bt/2, bt, 5*bt)})
@@ -167,6 +174,9 @@ func runTransmit(t *testing.T, p *Plan) *Outcome {
 			return
 		}
 		drv.Settle()
+		gate := &SendGate{}
+		gate.Install()
+		defer gate.Uninstall()
 		if p.On("tick_jitter") {
 			drv.TickDelay = func(tk *SimTicker, fire int) time.Duration {
 				if strings.Contains(tk.Key, "dispatchStaleBatches") && HF(p.Seed, "jit", tk.Key, fire) < 0.3 {
@@ -318,6 +328,14 @@ func runTransmit(t *testing.T, p *Plan) *Outcome {
 						Timestamp: time.Unix(1700000000+int64(op.ID), 123000000).UTC(), Data: pl}
 					events[id] = &txEvent{op: op, id: id, dest: d, enqAt: time.Now(), bodies: map[string]bool{}, oversize: op.N >= 1_000_000}
 					tx.EnqueueEvent(ev)
+				case "park_send":
+					gate.Park()
+					out.Fault("senders_held")
+				case "release_send":
+					gate.Release()
+					if gate.Held > 0 {
+						out.Probe("batch_waited_for_its_sender")
+					}
 				case "stop":
 					stopped = true
 					stopAt = time.Now()
@@ -425,7 +443,7 @@ func runTransmit(t *testing.T, p *Plan) *Outcome {
 					firstEnq = ev.enqAt
 				}
 			}
-			if !p.On("tick_jitter") && !firstEnq.IsZero() {
+			if !p.On("tick_jitter") && !firstEnq.IsZero() && !gate.Overlaps(firstEnq, drv.Start.Add(rec.At)) {
 				lat := drv.Start.Add(rec.At).Sub(firstEnq)
 				if lat > bt+bt/4 {
 					// a batch split off a larger one by the 5MB limit goes out after its predecessor's round trip
